@@ -11,7 +11,7 @@ from mc import boot, corpus, progs
 from mc.kernel import key_of, violation
 
 ID = "C03"
-LEVEL = "exploration"
+LEVEL = "fault_enumeration"
 RULE = (
     "(a) a case = (input text, entry point): inputs = every atom program (module context), every construct of the "
     "construct corpus alone / first / last of two statements / indented 4 and 8, every vendored repository example; "
